@@ -362,7 +362,7 @@ func runC11(c *vlib.Ctx) {
 		}
 		c11FreePass(c, rounds)
 		if c.Thorough() {
-			c11RacePass(c, 10)
+			c11RacePass(c, 3)
 		}
 	}
 	c.Set("states", states)
